@@ -413,6 +413,38 @@ func (g *c16) corners() {
 			g.pair(ts(a, na), ts(b, nb), cfgs, nil, []string{"mut:extreme-timestamps"}, true)
 		}
 	}
+	// unknown fields: every pair of a fixed family of raw-field sequences (one number repeated, a
+	// second number interleaved), at the root and inside a sub-message
+	A := func(v uint64) []byte { return unknownField(20000, v) }
+	B := unknownBytesField(20001, "b")
+	cat := func(parts ...[]byte) []byte {
+		var out []byte
+		for _, p := range parts {
+			out = append(out, p...)
+		}
+		return out
+	}
+	seqs := [][]byte{
+		nil, A(1), A(3), cat(A(1), A(3)), cat(A(2), A(3)), cat(A(1), A(2)), cat(A(3), A(1)), cat(A(1), A(1)),
+		cat(A(1), A(2), A(3)), cat(A(9), A(2), A(3)), cat(A(1), A(9), A(3)), cat(A(1), A(2), A(9)), cat(A(3), A(2), A(1)),
+		cat(A(1), A(300)), cat(A(300), A(3)), cat(A(1), B, A(3)), cat(B, A(1), A(3)), cat(A(1), A(3), B), cat(A(2), B, A(3)),
+		cat(A(1), B, A(2)), B, cat(B, B),
+	}
+	for i, ux := range seqs {
+		for j, uy := range seqs {
+			mk := func(u []byte, nested bool) proto.Message {
+				m := &testproto.TestAllTypes{DefaultInt32: 1, DefaultNestedMessage: &testproto.TestAllTypes_NestedMessage{A: 2}}
+				if nested {
+					m.DefaultNestedMessage.ProtoReflect().SetUnknown(u)
+				} else {
+					m.ProtoReflect().SetUnknown(u)
+				}
+				return m
+			}
+			nested := (i+j)%3 == 0
+			g.pair(mk(ux, nested), mk(uy, nested), []ecfg{{}, {vs: []vcfg{{kind: "float", b: 0.5}}}}, nil, []string{"mut:unknown-grid"}, true)
+		}
+	}
 	// nil elements of a repeated message field (outside the guard: watched for model fidelity only)
 	withNil := &testproto.TestAllTypes{RepeatedWellKnown: []*testproto.WellKnown{nil}}
 	withEmpty := &testproto.TestAllTypes{RepeatedWellKnown: []*testproto.WellKnown{{}}}
@@ -635,7 +667,7 @@ func genC16(o *vcoq.Out, r *vcoq.Rand, tier string) error {
 	o.CaseType = "c16case"
 	o.Judge = "judge"
 	o.Shard = 40
-	o.Rule = "pairs: a random TestAllTypes (60%) or trait message (PullBrightnessResponse, PullEnergyLevelResponse, ElectricMode) cloned twice, one clone mutated in 0-3 places (kinds in the mut:* tags), floats dyadic, each pair judged under the default comparer, two FloatValueApprox, two TimeValueWithin, two DurationValueWithin with tolerances below/at/above the injected difference, Equal of all three, Equal(ValueOr), And and Or of Equal comparers, on (x,y), (y,x), (x,x), (y,y); plus exhaustive grids: nil / typed nil / 13 message types pairwise, 8x8 special floats, 18x18 extreme durations, 12x12 extreme timestamps, DurationValueWithinP on a 10x10x3 grid; streams: resource.Value (and, for a quarter, a one-item resource.Collection) with WithNoDuplicates or a tolerance equivalence, optional seed, 1-8 drifting writes, backpressured Pull. Non-trivial: at least one mutation applied / grid pair / stream with >= 2 writes. Distinct by the full case term."
+	o.Rule = "pairs: a random TestAllTypes (60%) or trait message (PullBrightnessResponse, PullEnergyLevelResponse, ElectricMode) cloned twice, one clone mutated in 0-3 places (kinds in the mut:* tags), floats dyadic, each pair judged under the default comparer, two FloatValueApprox, two TimeValueWithin, two DurationValueWithin with tolerances below/at/above the injected difference, Equal of all three, Equal(ValueOr), And and Or of Equal comparers, on (x,y), (y,x), (x,x), (y,y); plus exhaustive grids: nil / typed nil / 13 message types pairwise, 8x8 special floats, 18x18 extreme durations, 12x12 extreme timestamps, 22x22 unknown-field sequences (a repeated field number, a second number interleaved), DurationValueWithinP on a 10x10x3 grid; streams: resource.Value (and, for a quarter, a one-item resource.Collection) with WithNoDuplicates or a tolerance equivalence, optional seed, 1-8 drifting writes, backpressured Pull. Non-trivial: at least one mutation applied / grid pair / stream with >= 2 writes. Distinct by the full case term."
 	g := &c16{o: o, r: r, g: &pairGen{r: r}}
 	scale := 1
 	if tier == "thorough" {
